@@ -82,6 +82,18 @@ Theorem C04_bare_reserved_segment_refuted :
             ~ BareWordEx.lex_emit_core3_concl TokRoundEx.ex_cls (fun _ => false) d /\ BareWordEx.rt3_fails d.
 Proof. exact BareWordEx.lex_emit_core3_refuted_reserved_segment_true. Qed.
 
+(* scalars in ALL FOUR positions (assignment, META, list item at any nesting depth, inline-map value): whenever the shape
+   check accepts the emitted text of a core4 document, the reader returns that document, so every scalar keeps value and kind *)
+From OV Require Rt.TokRound4 Rt.TokRound4Ex.
+Theorem C04_scalars_in_lists_and_maps_core4 :
+  forall cls numcanon holo_ok strict d text,
+    TokRound4Ex.core4_shape_check cls d (lines_of text) = 1%N ->
+    TokRound4.nums_ok4_l numcanon TokRound2Ex.ex_idnum (dsections d) ->
+    Forall (TokRound4.field_num_ok4 numcanon TokRound2Ex.ex_idnum) (dmeta d) ->
+    strip_frontmatter (u_space cls) (lines_of text) = (lines_of text, None) ->
+    exists warns, parse_model cls numcanon holo_ok strict (lines_of text) = PRDoc d [] warns /\ Forall TokRound4.advisory4 warns.
+Proof. exact TokRound4Ex.core4_shape_check_sound. Qed.
+
 (* ---- source-text pins (generated by harness/pinsets.py) ---- *)
 (* every function of these modules is, text for text (comments and docstrings excluded), the one the models of this
    property were written against and validated against: harness/translate/srcdigest_t.py, Src/Pin_*.v *)
